@@ -17,7 +17,7 @@ RULE = ('Evaluation = one stage boundary (quiescent point after find_slices / fi
 ASSUMPTIONS = ['the chunk emptied by the crop (known finding D8, decided by C08) is not generated here']
 REQUIRED = ['single_valid_hit', 'all_nan', 'group_split_in_2', 'group_split_in_3', 'gt100_slices',
             'msa_crop_active', 'groups_fewer_than_slices', 'gt100_slices_with_split',
-            'nonunique_index_labels_with_crop', 'gt10_groups_two_splits', 'range_index_not_from_0_with_crop']
+            'nonunique_index_labels_with_crop', 'gt10_groups_two_splits', 'range_index_not_from_0_with_crop', 'slices_multiple_of_100_with_split']
 SIZES = {'quick': dict(generic=330, bimodal=60, many=4), 'thorough': dict(generic=9000, bimodal=1500, many=40)}
 
 
@@ -40,7 +40,7 @@ def plan(tier, seed):
     for i in range(3 if tier == 'quick' else 40):       # > 10 groups, several of them split
         out.append({'fam': 'manysplit', 's': seed, 'p': NUM, 'i': 400000 + i})
     for i in range(8 if tier == 'quick' else 24):       # number of slices swept through a multiple of 100
-        out.append({'fam': 'exactslices', 's': seed, 'p': NUM, 'i': 500000 + i, 'n_single': 94 + i % 8 + 100 * (i // 8 % 2)})
+        out.append({'fam': 'exactslices', 's': seed, 'p': NUM, 'i': 500000 + i, 'n_single': 196 + i % 8 + 100 * (i // 8 % 3)})
     for i in range(z['many']):
         out.append({'fam': 'manyslices', 's': seed, 'p': NUM, 'i': 300000 + i})
     return out
@@ -51,26 +51,22 @@ def weight(d):
 
 
 def exact_slices_case(desc):
-    """A split low group + n isolated single hits, each a slice of its own: the number of slices (and the largest
-    group id) is swept through 100 / 200."""
+    """One low bimodal deck (a single slice, split by the mixture model) + n isolated single hits, each a slice and
+    a group of its own: the number of slices (and the largest group id) is swept through 100 / 200."""
     rng = scenes.rng_for(desc['s'], NUM, desc['i'])
     rows = []
-    for t in range(70):
+    for t in range(70):           # deterministic heights: the same slices for every seed
         dt = -t * 7.0
-        hs = []
-        if rng.uniform() < 0.9:
-            hs.append(float(500 + rng.normal(0, 40)))
-        if rng.uniform() < 0.8:
-            hs.append(float(1000 + rng.normal(0, 40)))
-        if not hs:
-            rows.append(['a', dt, float('nan'), 0])
-        for k, h in enumerate(sorted(hs)):
-            rows.append(['a', dt, h, k + 1])
-    for j in range(desc['n_single']):
-        rows.append(['b', -j * 7.0 - 3, 4000 + j * 700.0, 1])
+        rows.append(['a', dt, 500.0 + (t % 7) * 5.0, 1])
+        if t % 5:
+            rows.append(['a', dt, 640.0 + (t % 6) * 6.0, 2])
+    n = desc['n_single']
+    step = min(700.0, 94000.0 / n)
+    for j in range(n):
+        rows.append(['b', -j * 7.0 - 3, 4000 + j * step, 1])
     sc = {'rows': scenes.dedupe(rows), 'names': ['a', 'b'], 'order': 'none', 'fam': 'exactslices'}
-    import copy as _c
-    return {'scene': sc, 'prm': {'call': _c.deepcopy(scenes.PRMS_MANY_SLICES), 'glob': {}}}
+    return {'scene': sc, 'prm': {'call': {'SLICING_PRMS': {'distance_threshold': 0.0035}, 'MIN_SEP_VALS': [100.0, 100.0],
+                                          'MAX_HITS_OKTA0': 0}, 'glob': {}}}
 
 
 def check(desc):
@@ -102,6 +98,8 @@ def check(desc):
         tags.add('gt10_groups_two_splits')
     if not res['counters'].get('crashed') and ch.n_slices is not None and ch.n_slices % 100 == 0 and ch.n_slices:
         tags.add('slices_multiple_of_100')
+        if (ch.groups['ncomp'] > 1).any():
+            tags.add('slices_multiple_of_100_with_split')
     if case['scene'].get('index_kind') == 'range' and 'msa_crop_active' in tags:
         tags.add('range_index_not_from_0_with_crop')
     if 'gt100_slices' in tags and any(t.startswith('group_split_in') for t in tags):
